@@ -148,12 +148,13 @@ type termKey struct {
 
 // TB is a term bank (one per run).
 type TB struct {
-	mu    sync.Mutex
-	tab   map[termKey]*Term
-	terms []*Term
-	True  *Term
-	False *Term
-	vars  map[string]*Term
+	mu       sync.Mutex
+	tab      map[termKey]*Term
+	terms    []*Term
+	True     *Term
+	False    *Term
+	vars     map[string]*Term
+	ctxCache map[int]map[int]bool
 	// variable ranges declared by the harness (asserted with every query)
 	VarOrder []*Term
 }
@@ -530,6 +531,21 @@ func (tb *TB) factorOr(xs []*Term) []*Term {
 					changed = true
 					break outer
 				}
+				// a ∨ (¬a ∧ X) = a ∨ X
+				if len(li) == 1 && len(lj) > 1 {
+					if r := tb.dropNegated(li[0], lj); r != nil {
+						xs[j] = r
+						changed = true
+						break outer
+					}
+				}
+				if len(lj) == 1 && len(li) > 1 {
+					if r := tb.dropNegated(lj[0], li); r != nil {
+						xs[i] = r
+						changed = true
+						break outer
+					}
+				}
 			}
 		}
 	}
@@ -575,6 +591,17 @@ func (tb *TB) mergeConj(a, b []*Term) *Term {
 			return tb.True
 		}
 		return tb.conj(common)
+	}
+	return nil
+}
+
+// dropNegated removes the literal ¬a from the conjunction ls (nil if it is not there).
+func (tb *TB) dropNegated(a *Term, ls []*Term) *Term {
+	for k, l := range ls {
+		if tb.isNeg(a, l) {
+			rest := append(append([]*Term(nil), ls[:k]...), ls[k+1:]...)
+			return tb.conj(rest)
+		}
 	}
 	return nil
 }
@@ -1260,11 +1287,20 @@ func (tb *TB) Restrict(t *Term, ctx map[int]bool) *Term {
 		return t
 	}
 	memo := map[int]*Term{}
-	return tb.restrict(t, ctx, memo, 0)
+	return tb.restrict(t, ctx, memo, map[int]decision{}, 0)
 }
 
 // CtxOf returns the literal set of a guard: id -> polarity (true: positive literal holds).
 func (tb *TB) CtxOf(g *Term) map[int]bool {
+	tb.mu.Lock()
+	if tb.ctxCache == nil {
+		tb.ctxCache = map[int]map[int]bool{}
+	}
+	if c, ok := tb.ctxCache[g.ID]; ok {
+		tb.mu.Unlock()
+		return c
+	}
+	tb.mu.Unlock()
 	ctx := map[int]bool{}
 	for _, l := range lits(g) {
 		if l.Op == OpNot {
@@ -1277,7 +1313,10 @@ func (tb *TB) CtxOf(g *Term) map[int]bool {
 				for _, d := range l.Args {
 					c := tb.CtxOf(d)
 					if common == nil {
-						common = c
+						common = map[int]bool{}
+						for k, v := range c {
+							common[k] = v
+						}
 						continue
 					}
 					for k, v := range common {
@@ -1292,60 +1331,97 @@ func (tb *TB) CtxOf(g *Term) map[int]bool {
 			}
 		}
 	}
+	tb.mu.Lock()
+	tb.ctxCache[g.ID] = ctx
+	tb.mu.Unlock()
 	return ctx
 }
 
+type decision uint8
+
+const (
+	dUnknown decision = iota + 1
+	dTrue
+	dFalse
+)
+
 func (tb *TB) decided(c *Term, ctx map[int]bool) (val, ok bool) {
-	if c.IsConst() {
-		return c.IsTrue(), true
-	}
-	if c.Op == OpNot {
-		v, ok := tb.decided(c.Args[0], ctx)
-		return !v, ok
-	}
-	if p, ok := ctx[c.ID]; ok {
-		return p, true
-	}
-	if c.Op == OpAnd {
-		all := true
-		for _, x := range c.Args {
-			v, ok := tb.decided(x, ctx)
-			if ok && !v {
-				return false, true
-			}
-			if !ok {
-				all = false
-			}
-		}
-		if all {
-			return true, true
-		}
-	}
-	if c.Op == OpOr {
-		all := true
-		for _, x := range c.Args {
-			v, ok := tb.decided(x, ctx)
-			if ok && v {
-				return true, true
-			}
-			if !ok {
-				all = false
-			}
-		}
-		if all {
-			return false, true
-		}
-	}
-	return false, false
+	d := tb.decide(c, ctx, map[int]decision{})
+	return d == dTrue, d != dUnknown
 }
 
-func (tb *TB) restrict(t *Term, ctx map[int]bool, memo map[int]*Term, depth int) *Term {
-	if t.IsConst() || t.Op == OpVar {
-		if t.Sort.K == KBool {
-			if v, ok := tb.decided(t, ctx); ok {
-				return tb.Bool(v)
+func (tb *TB) decide(c *Term, ctx map[int]bool, memo map[int]decision) decision {
+	if c.IsConst() {
+		if c.IsTrue() {
+			return dTrue
+		}
+		return dFalse
+	}
+	if p, ok := ctx[c.ID]; ok {
+		if p {
+			return dTrue
+		}
+		return dFalse
+	}
+	switch c.Op {
+	case OpNot, OpAnd, OpOr:
+	default:
+		return dUnknown
+	}
+	if d, ok := memo[c.ID]; ok {
+		return d
+	}
+	r := dUnknown
+	switch c.Op {
+	case OpNot:
+		switch tb.decide(c.Args[0], ctx, memo) {
+		case dTrue:
+			r = dFalse
+		case dFalse:
+			r = dTrue
+		}
+	case OpAnd:
+		r = dTrue
+		for _, x := range c.Args {
+			d := tb.decide(x, ctx, memo)
+			if d == dFalse {
+				r = dFalse
+				break
+			}
+			if d == dUnknown {
+				r = dUnknown
 			}
 		}
+	case OpOr:
+		r = dFalse
+		for _, x := range c.Args {
+			d := tb.decide(x, ctx, memo)
+			if d == dTrue {
+				r = dTrue
+				break
+			}
+			if d == dUnknown {
+				r = dUnknown
+			}
+		}
+	}
+	memo[c.ID] = r
+	return r
+}
+
+func (tb *TB) restrict(t *Term, ctx map[int]bool, memo map[int]*Term, dm map[int]decision, depth int) *Term {
+	if t.IsConst() {
+		return t
+	}
+	if t.Sort.K == KBool {
+		switch tb.decide(t, ctx, dm) {
+		case dTrue:
+			return tb.True
+		case dFalse:
+			return tb.False
+		}
+	}
+	if t.Op == OpVar {
 		return t
 	}
 	if r, ok := memo[t.ID]; ok {
@@ -1353,26 +1429,24 @@ func (tb *TB) restrict(t *Term, ctx map[int]bool, memo map[int]*Term, depth int)
 	}
 	var r *Term
 	switch {
-	case t.Sort.K == KBool && func() bool { _, ok := tb.decided(t, ctx); return ok }():
-		v, _ := tb.decided(t, ctx)
-		r = tb.Bool(v)
 	case t.Op == OpIte:
-		if v, ok := tb.decided(t.Args[0], ctx); ok {
-			if v {
-				r = tb.restrict(t.Args[1], ctx, memo, depth+1)
+		switch tb.decide(t.Args[0], ctx, dm) {
+		case dTrue:
+			r = tb.restrict(t.Args[1], ctx, memo, dm, depth+1)
+		case dFalse:
+			r = tb.restrict(t.Args[2], ctx, memo, dm, depth+1)
+		default:
+			if depth < 64 {
+				r = tb.Ite(tb.restrict(t.Args[0], ctx, memo, dm, depth+1), tb.restrict(t.Args[1], ctx, memo, dm, depth+1), tb.restrict(t.Args[2], ctx, memo, dm, depth+1))
 			} else {
-				r = tb.restrict(t.Args[2], ctx, memo, depth+1)
+				r = t
 			}
-		} else if depth < 64 {
-			r = tb.Ite(tb.restrict(t.Args[0], ctx, memo, depth+1), tb.restrict(t.Args[1], ctx, memo, depth+1), tb.restrict(t.Args[2], ctx, memo, depth+1))
-		} else {
-			r = t
 		}
 	case t.Op == OpAnd || t.Op == OpOr:
 		xs := make([]*Term, len(t.Args))
 		ch := false
 		for i, a := range t.Args {
-			xs[i] = tb.restrict(a, ctx, memo, depth+1)
+			xs[i] = tb.restrict(a, ctx, memo, dm, depth+1)
 			if xs[i] != a {
 				ch = true
 			}
@@ -1383,7 +1457,7 @@ func (tb *TB) restrict(t *Term, ctx map[int]bool, memo map[int]*Term, depth int)
 			r = t
 		}
 	case t.Op == OpNot:
-		r = tb.Not(tb.restrict(t.Args[0], ctx, memo, depth+1))
+		r = tb.Not(tb.restrict(t.Args[0], ctx, memo, dm, depth+1))
 	default:
 		r = t
 	}
